@@ -226,6 +226,21 @@ RfWellFormed(ty, rf) ==
 \* dynamic placeholder the member may be more specific only through unknown / null members
 MemberTypeOk(m, t) == TEquals(m.ty, t)
 
+\* internal view (build-tag hook cty.VerifInspect), one record per node of a result value:
+\* the Go kind of the payload is the one the type dictates, at most one marker layer, the
+\* refinement struct is the one for the type, a set's rules carry the declared element type
+NodeOK(n) ==
+  /\ n.md <= 1
+  /\ CASE n.st = "null" -> n.gk = "nil"
+        [] n.st = "unk" -> n.gk = "unknown" /\ n.rk \in
+              (CASE n.ty.k = "number" -> {"", "number"} [] n.ty.k = "string" -> {"", "string"} [] IsCollT(n.ty) -> {"", "collection"}
+                 [] n.ty.k = "dynamic" -> {""} [] OTHER -> {"", "nullable"})
+        [] OTHER ->
+             CASE n.ty.k = "bool" -> n.gk = "bool" [] n.ty.k = "number" -> n.gk = "bigfloat" [] n.ty.k = "string" -> n.gk = "string"
+               [] n.ty.k \in {"list", "tuple"} -> n.gk = "slice" [] n.ty.k \in {"map", "object"} -> n.gk = "map"
+               [] n.ty.k = "set" -> n.gk = "set" /\ Has(n, "sety") /\ TEquals(n.sety, n.ty.e)
+               [] OTHER -> TRUE
+
 NoDupSeq(s) == \A i, j \in 1..Len(s) : i # j => s[i] # s[j]
 
 RECURSIVE WellFormed(_)
@@ -263,4 +278,7 @@ WellFormed(v) ==
                   /\ DOMAIN Attrs(v) = DOMAIN v.ty.as
                   /\ \A n \in DOMAIN Attrs(v) : MemberTypeOk(Attrs(v)[n], v.ty.as[n]) /\ WellFormed(Attrs(v)[n])
                   /\ (Has(v, "nfc") => v.nfc)
+\* a result record [ok, val (, in)]: the value is well-formed through the public accessors and,
+\* when the hook view was recorded, internally
+WellFormedR(r) == WellFormed(r.val) /\ (Has(r, "in") => \A i \in 1..Len(r.in) : NodeOK(r.in[i]))
 =============================================================================
